@@ -14,8 +14,14 @@ def drive (body impl : String) : Verdict :=
     (if get "dup" == some "0" then [] else [s!"[conc-dup] an item was returned twice: {impl}"]) ++
     (if get "lost" == some "0" then [] else [s!"[conc-lost] items stranded or lost under concurrency: {impl}"]) ++
     (if get "phantom" == some "0" then [] else [s!"[conc-phantom] {impl}"])
+  -- the process-wide task queue is an `OrderedWorkStealQueue`: an item lost or returned twice there is a task
+  -- that is never executed, or executed twice (C01)
+  let bad01 : List String := if (words body).headD "" != "oq" then [] else
+    (if get "lost" == some "0" then [] else [s!"[task-stranded-in-queue] with the task queue's type under concurrent pushes and pops an item was pushed and never came out again although the queue was drained: {impl}"]) ++
+    (if get "dup" == some "0" then [] else [s!"[task-twice] with the task queue's type an item came out twice: {impl}"])
   { modelOut := expect,
-    spec := [("C03", bad.isEmpty, joinWith " ; " bad)],
+    spec := [("C03", bad.isEmpty, joinWith " ; " bad), ("C01", bad01.isEmpty, joinWith " ; " bad01)],
+    blame := some ["C03"],
     labels := (words body).take 1 ++ (words body).drop 4 }
 
 end Oc.Driver.QConc
